@@ -663,4 +663,180 @@ theorem in_both (hOwn : OwnW c w addrs) (h : WR w addrs P T N G S gi si) {gb sb 
 
 end ops
 
+-- ------------------------------------------------------------------ loops: two successful runs side by side
+
+theorem foldIdxM_rel {α β : Type} (R : β → β → Prop) (f f' : β → Nat → α → M β) :
+    ∀ (l : List α) (i0 : Nat) (b c b' c' : β),
+    (∀ b c j a b' c', l[j]? = some a → R b c → f b (i0 + j) a = .ok b' → f' c (i0 + j) a = .ok c' → R b' c') →
+    R b c → foldIdxM f l i0 b = .ok b' → foldIdxM f' l i0 c = .ok c' → R b' c'
+  | [], _, b, c, b', c', _, hR, h, h' => by cases h; cases h'; exact hR
+  | a :: l, i0, b, c, b', c', hstep, hR, h, h' => by
+    rw [foldIdxM_cons] at h h'
+    obtain ⟨b1, h1, h2⟩ := M_bind_ok h
+    obtain ⟨c1, k1, k2⟩ := M_bind_ok h'
+    have hR1 := hstep b c 0 a b1 c1 rfl hR h1 k1
+    refine foldIdxM_rel R f f' l (i0 + 1) b1 c1 b' c' ?_ hR1 h2 k2
+    intro b c j a' b' c' hj
+    have := hstep b c (j + 1) a' b' c' (by rw [List.getElem?_cons_succ]; exact hj)
+    rwa [show i0 + (j + 1) = i0 + 1 + j by omega] at this
+
+theorem foldIdxM_pres {α β : Type} (Q : β → Prop) (f : β → Nat → α → M β) :
+    ∀ (l : List α) (i0 : Nat) (b b' : β),
+    (∀ b j a b', l[j]? = some a → Q b → f b (i0 + j) a = .ok b' → Q b') →
+    Q b → foldIdxM f l i0 b = .ok b' → Q b'
+  | [], _, b, b', _, hQ, h => by cases h; exact hQ
+  | a :: l, i0, b, b', hstep, hQ, h => by
+    rw [foldIdxM_cons] at h
+    obtain ⟨b1, h1, h2⟩ := M_bind_ok h
+    have hQ1 := hstep b 0 a b1 rfl hQ h1
+    refine foldIdxM_pres Q f l (i0 + 1) b1 b' ?_ hQ1 h2
+    intro b j a' b' hj
+    have := hstep b (j + 1) a' b' (by rw [List.getElem?_cons_succ]; exact hj)
+    rwa [show i0 + (j + 1) = i0 + 1 + j by omega] at this
+
+/-- the second run skips the elements failing `p`; on those the first run keeps the relation alone -/
+theorem foldlM_rel_filter {α β : Type} (R : β → β → Prop) (f f' : β → α → M β) (p : α → Bool) :
+    ∀ (l : List α) (b c b' c' : β),
+    (∀ b c a b' c', a ∈ l → p a = true → R b c → f b a = .ok b' → f' c a = .ok c' → R b' c') →
+    (∀ b c a b', a ∈ l → p a = false → R b c → f b a = .ok b' → R b' c) →
+    R b c → l.foldlM f b = .ok b' → (l.filter p).foldlM f' c = .ok c' → R b' c'
+  | [], b, c, b', c', _, _, hR, h, h' => by
+    have e1 : b = b' := by simpa using h
+    have e2 : c = c' := by simpa using h'
+    subst e1; subst e2; exact hR
+  | a :: l, b, c, b', c', hb, hl, hR, h, h' => by
+    rw [List.foldlM_cons] at h
+    obtain ⟨b1, h1, h2⟩ := M_bind_ok h
+    cases hp : p a with
+    | true =>
+      rw [List.filter_cons_of_pos (by rw [hp]), List.foldlM_cons] at h'
+      obtain ⟨c1, k1, k2⟩ := M_bind_ok h'
+      exact foldlM_rel_filter R f f' p l b1 c1 b' c'
+        (fun b c a' b' c' ha' => hb b c a' b' c' (List.mem_cons_of_mem _ ha'))
+        (fun b c a' b' ha' => hl b c a' b' (List.mem_cons_of_mem _ ha'))
+        (hb b c a b1 c1 (List.mem_cons_self ..) hp hR h1 k1) h2 k2
+    | false =>
+      rw [List.filter_cons_of_neg (by rw [hp]; exact Bool.false_ne_true)] at h'
+      exact foldlM_rel_filter R f f' p l b1 c b' c'
+        (fun b c a' b' c' ha' => hb b c a' b' c' (List.mem_cons_of_mem _ ha'))
+        (fun b c a' b' ha' => hl b c a' b' (List.mem_cons_of_mem _ ha'))
+        (hl b c a b1 (List.mem_cons_self ..) hp hR h1) h2 h'
+
+-- ------------------------------------------------------------------ one transaction record
+
+section tx
+variable {w : Wid} {addrs : List Addr} {P : CredKey → Addr → Prop} {T : TxId × BlockMeta → BlkId × Nat → Prop}
+  {N : TxId × BlockMeta → Prop} {G S : AMap.T Nat (BlkId × List TxId)} {gi si : Store} {c : Ctx}
+
+/-- the ghost's credits under a recorded transaction pay the address of the transaction's output -/
+def CredVal (c : Ctx) (P : CredKey → Addr → Prop) (T : TxId × BlockMeta → BlkId × Nat → Prop) (blk : BlockMeta) : Prop :=
+  ∀ id loc tx, T (id, blk) loc → c.node.txByFileLoc loc = some tx →
+    ∀ i sh o, P ⟨id, blk, i⟩ sh → tx.outs[i]? = some o → sh = o.addr
+
+/-- a tx record the real store lacks (from the start): the ghost rolls the transaction back alone -/
+theorem tx_g (hOwn : OwnW c w addrs) {blk : BlockMeta} (hCV : CredVal c P T blk)
+    (h : WR w addrs P T N G S gi si) {gb sb : Bals} (hb : BalR w gb sb) {id : TxId}
+    {r : Store × Bals × List (TxId × Nat)} (hN : N (id, blk)) (hg : rollbackTx c gi gb blk id = .ok r) :
+    WR w addrs P T N G S r.1 si ∧ BalR w r.2.1 sb := by
+  unfold rollbackTx at hg
+  cases ht : AMap.get gi.txrecs (id, blk) with
+  | none => rw [ht] at hg; cases hg; exact ⟨h, hb⟩
+  | some loc =>
+    rw [ht] at hg
+    dsimp only at hg
+    cases hl : c.node.txByFileLoc loc with
+    | none => rw [hl] at hg; cases hg
+    | some tx =>
+      rw [hl] at hg
+      dsimp only at hg
+      have hP : ∀ j o, tx.outs[j]? = some o → ∀ sh, P ⟨id, blk, 0 + j⟩ sh → sh = o.addr := by
+        intro j o hj sh hsh
+        rw [Nat.zero_add] at hsh
+        exact hCV id loc tx (h.mn.locOK _ _ ht) hl j sh o hsh hj
+      have hm := h.mn.eraseTx_g (h.mn.nTx _ hN)
+      by_cases hcb : tx.cb = true
+      · rw [if_pos hcb] at hg
+        obtain ⟨ga, h2, h3⟩ := M_bind_ok hg
+        cases h3
+        exact foldIdxM_pres (fun (ga : (Store × Bals) × List (TxId × Nat)) =>
+            WR w addrs P T N G S ga.1.1 si ∧ BalR w ga.1.2 sb) (rollbackCbOut c id blk) tx.outs 0
+          (({ gi with txrecs := AMap.erase gi.txrecs (id, blk) }, gb), []) _
+          (fun b j a b' hj hQ hf => cbOut_g hOwn hQ.1 hQ.2 (hP j a hj) (hQ.1.mn.noRec ⟨id, blk, 0 + j⟩ hN).1 hf)
+          ⟨⟨h.wk, hm, h.rs⟩, hb⟩ h2
+      · rw [if_neg hcb] at hg
+        obtain ⟨gb1, h2, h3⟩ := M_bind_ok hg
+        obtain ⟨gb2, h4, h5⟩ := M_bind_ok h3
+        cases h5
+        have q1 := foldIdxM_pres (fun (ga : Store × Bals) => WR w addrs P T N G S ga.1 si ∧ BalR w ga.2 sb)
+          (rollbackIn c id blk) tx.ins 0
+          ({ gi with txrecs := AMap.erase gi.txrecs (id, blk), pending := AMap.put gi.pending id tx }, gb) _
+          (fun b j a b' _ hQ hf => in_g hOwn hQ.1 hQ.2 (hQ.1.mn.noRec ⟨id, blk, 0 + j⟩ hN).2 hf)
+          ⟨⟨h.wk, hm, h.rs⟩, hb⟩ h2
+        exact foldIdxM_pres (fun (ga : Store × Bals) => WR w addrs P T N G S ga.1 si ∧ BalR w ga.2 sb)
+          (rollbackOut c id blk) tx.outs 0 gb1 _
+          (fun b j a b' hj hQ hf => out_g hOwn hQ.1 hQ.2 (hP j a hj) (hQ.1.mn.noRec ⟨id, blk, 0 + j⟩ hN).1 hf)
+          q1 h4
+
+theorem tx_both (hOwn : OwnW c w addrs) {blk : BlockMeta} (hCV : CredVal c P T blk)
+    (h : WR w addrs P T N G S gi si) {gb sb : Bals} (hb : BalR w gb sb) {id : TxId}
+    {r r' : Store × Bals × List (TxId × Nat)}
+    (hg : rollbackTx c gi gb blk id = .ok r) (hs : rollbackTx c si sb blk id = .ok r') :
+    WR w addrs P T N G S r.1 r'.1 ∧ BalR w r.2.1 r'.2.1 := by
+  cases hst : AMap.get si.txrecs (id, blk) with
+  | none =>
+    have e : r' = (si, sb, []) := by unfold rollbackTx at hs; rw [hst] at hs; cases hs; rfl
+    rw [e]
+    rcases h.mn.txN _ hst with hgn | hN
+    · have e' : r = (gi, gb, []) := by unfold rollbackTx at hg; rw [hgn] at hg; cases hg; rfl
+      rw [e']; exact ⟨h, hb⟩
+    · exact tx_g hOwn hCV h hb hN hg
+  | some loc =>
+    have ht : AMap.get gi.txrecs (id, blk) = some loc := by
+      rcases h.mn.txS (id, blk) with e | e
+      · rw [← e]; exact hst
+      · rw [hst] at e; cases e
+    unfold rollbackTx at hg hs
+    rw [ht] at hg; rw [hst] at hs
+    dsimp only at hg hs
+    cases hl : c.node.txByFileLoc loc with
+    | none => rw [hl] at hg; cases hg
+    | some tx =>
+      rw [hl] at hg hs
+      dsimp only at hg hs
+      have hP : ∀ j o, tx.outs[j]? = some o → ∀ sh, P ⟨id, blk, 0 + j⟩ sh → sh = o.addr := by
+        intro j o hj sh hsh
+        rw [Nat.zero_add] at hsh
+        exact hCV id loc tx (h.mn.locOK _ _ ht) hl j sh o hsh hj
+      have hm := h.mn.eraseTx_both (id, blk)
+      by_cases hcb : tx.cb = true
+      · rw [if_pos hcb] at hg hs
+        obtain ⟨ga, h2, h3⟩ := M_bind_ok hg
+        obtain ⟨sa, k2, k3⟩ := M_bind_ok hs
+        cases h3; cases k3
+        exact foldIdxM_rel (fun (ga sa : (Store × Bals) × List (TxId × Nat)) =>
+            WR w addrs P T N G S ga.1.1 sa.1.1 ∧ BalR w ga.1.2 sa.1.2)
+          (rollbackCbOut c id blk) (rollbackCbOut c id blk) tx.outs 0
+          (({ gi with txrecs := AMap.erase gi.txrecs (id, blk) }, gb), [])
+          (({ si with txrecs := AMap.erase si.txrecs (id, blk) }, sb), []) _ _
+          (fun b c' j a b' c'' hj hQ hf hf' => cbOut_both hOwn hQ.1 hQ.2 (hP j a hj) hf hf')
+          ⟨⟨h.wk, hm, h.rs⟩, hb⟩ h2 k2
+      · rw [if_neg hcb] at hg hs
+        obtain ⟨gb1, h2, h3⟩ := M_bind_ok hg
+        obtain ⟨gb2, h4, h5⟩ := M_bind_ok h3
+        obtain ⟨sb1, k2, k3⟩ := M_bind_ok hs
+        obtain ⟨sb2, k4, k5⟩ := M_bind_ok k3
+        cases h5; cases k5
+        have q1 := foldIdxM_rel (fun (ga sa : Store × Bals) => WR w addrs P T N G S ga.1 sa.1 ∧ BalR w ga.2 sa.2)
+          (rollbackIn c id blk) (rollbackIn c id blk) tx.ins 0
+          ({ gi with txrecs := AMap.erase gi.txrecs (id, blk), pending := AMap.put gi.pending id tx }, gb)
+          ({ si with txrecs := AMap.erase si.txrecs (id, blk), pending := AMap.put si.pending id tx }, sb) _ _
+          (fun b c' j a b' c'' _ hQ hf hf' => in_both hOwn hQ.1 hQ.2 hf hf')
+          ⟨⟨h.wk, hm, h.rs⟩, hb⟩ h2 k2
+        exact foldIdxM_rel (fun (ga sa : Store × Bals) => WR w addrs P T N G S ga.1 sa.1 ∧ BalR w ga.2 sa.2)
+          (rollbackOut c id blk) (rollbackOut c id blk) tx.outs 0 gb1 sb1 _ _
+          (fun b c' j a b' c'' hj hQ hf hf' => out_both hOwn hQ.1 hQ.2 (hP j a hj) hf hf')
+          q1 h4 k4
+
+end tx
+
 end MW.Lemmas.RemoveSimW
